@@ -7,7 +7,7 @@ import BindgenModel.Model.LayoutRegions
 * `lay blob <size> <align> <ffi 0|1>` → `<type> <size> <align>`
 * `lay comp union=0|1 layout=S,A|- pattr=0|1 ovirt=0|1 vptr=0|1 opaque=0|1 fwd=0|1 zs=0|1 copy=0|1
    force=0|1 ptr=N untagged=0|1 style=w|m u64a=N bases=-|S,A;-;…
-   fields=-|d:S,A|-:OFF|-:ES,EA,LEN|-,LEN|-;u:NTH:S,A;…`
+   fields=-|d:S,A|-:OFF|-:ES,EA,LEN|-,LEN|-;u:NTH:S,A:BITSEND;…`
   → `emit <struct|union> packed=-|N align=-|N fields=<name>:<size>:<align>:<blob|->,… ispacked=0|1 inexact=0|1 reprc <size> <align> offs=<idx>:<off>,…`
   or `emit panic` / `emit … reprc reject`.
 -/
@@ -40,10 +40,18 @@ def parseField (s : String) : Option CField :=
     match parseLayout lay, parseOptNat off, parseArr arr with
     | some l, some o, some a => some (.data { layout := l, array := a } o)
     | _, _, _ => none
+  | ["d", lay, off, arr, ca] =>
+    match parseLayout lay, parseOptNat off, parseArr arr with
+    | some l, some o, some a => some (.data { layout := l, array := a, containsAlign := ca == "1" } o)
+    | _, _, _ => none
   | ["u", nth, lay] =>
     match nth.toNat?, parseLayout lay with
-    | some n, some (some l) => some (.unit n l)
+    | some n, some (some l) => some (.unit n l (8 * l.size))
     | _, _ => none
+  | ["u", nth, lay, e] =>
+    match nth.toNat?, parseLayout lay, e.toNat? with
+    | some n, some (some l), some e => some (.unit n l e)
+    | _, _, _ => none
   | _ => none
 
 def parseList {α} (f : String → Option α) (s : String) : Option (List α) :=
@@ -82,7 +90,8 @@ def handleComp (toks : List String) : String :=
     match emit o c with
     | none => "emit panic"
     | some r => "emit " ++ renderAgg r ++ " ispacked=" ++ (if c.isPacked then "1" else "0") ++
-        " inexact=" ++ (if hasInexactPad r then "1" else "0") ++ " reprc " ++ (match reprC r with | some l => renderLayout l | none => "reject")
+        " inexact=" ++ (if hasInexactPad r then "1" else "0") ++
+        " regions=" ++ (let rs := regionNames c r; if rs.isEmpty then "-" else "+".intercalate rs) ++ " reprc " ++ (match reprC r with | some l => renderLayout l | none => "reject")
   | _, _, _ => "bad-op"
 
 def handle (toks : List String) : String :=
